@@ -106,6 +106,8 @@ func genC07(tier string, seed uint64) *simkit.Plan {
 	// trust configuration of the target
 	p.Scenario = []string{"raft", "crdt_list", "crdt_empty", "crdt_all"}[r.Intn(4)]
 	p.SetKnob("order", int64(r.Intn(1<<30)))
+	// settings that have nothing to do with trust must not change who is served
+	p.SetKnob("tracing", int64(r.Intn(2)))
 	n := r.Range(1, 4)
 	for i := 0; i < n; i++ {
 		p.AddStep(Step{Op: "walk", N: r.Intn(1 << 30)})
@@ -230,6 +232,7 @@ func execC07(plan *simkit.Plan, run *simkit.Run) {
 	ccfg.Peername = "target"
 	ccfg.SetBaseDir(dir)
 	ccfg.MDNSInterval = 0
+	ccfg.Tracing = plan.Knob("tracing", 0) == 1
 	ccfg.ReplicationFactorMin, ccfg.ReplicationFactorMax = -1, -1
 	ccfg.StateSyncInterval, ccfg.PinRecoverInterval, ccfg.PeerWatchInterval, ccfg.MonitorPingInterval = 100*time.Hour, 100*time.Hour, 100*time.Hour, 100*time.Hour
 	tr := simkit.NewModelTracker(self)
